@@ -23,6 +23,12 @@ CHECKS = {
     'C07': dict(cat='other', tech='symbolic execution of the MIR of the per-cell build closures, the face rule and build_partial -> SMT',
                 text='Solver-decided for every mask: the mask reaches a tessellation only through the build guard (exactly "absent or mask[idx]") and the face rule; unselected cells are zero volume/centroid with their own index and no faces; the arguments of ConvexCell::build do not contain the mask; selected-unselected faces exist exactly once with the selected cell on the left; build_partial forwards the caller\'s mask (all 2^3 masks of length 3). The construction of a single ConvexCell is not encoded.',
                 note=TRUST_M + '; std Option/Vec/iterator semantics modelled positionally', ref='DESIGN.md 4 C07'),
+    'C12': dict(cat='other', tech='symbolic execution (forking on symbolic indices, z3-pruned) of the MIR of Voronoi::finalize, face_indices, neighbour_ids and of the build closures',
+                text='Solver-decided on every feasible path for an arbitrary face list (3 cells x 2 faces quick; 3x3 and 4x2 thorough; labels symbolic, presence of right/shift enumerated): prefix-sum offsets, total length, each cell lists exactly its left faces and unshifted right faces once, neighbour_ids = other side of non-boundary non-periodic faces, never the cell itself, no duplicates - including unconstructed cells, whose index is tied to their position at both creation sites. Producer invariants (C03/C07) are assumed.',
+                note=TRUST_M + '; std Vec/iterator semantics modelled positionally', ref='DESIGN.md 4 C12'),
+    'C20': dict(cat='other', tech='symbolic execution of the MIR of space.rs / bounding_sphere.rs leaf functions -> SMT over the reals',
+                text='Solver-decided leaf lemmas: Space::new cell geometry for a 2x3x2 grid with symbolic (non-cubic) box; get_cid row-major bijection with symbolic indices; get_r_ring = Chebyshev ring (concrete 2x3x2 grid, executed through the interpreter); Cell::min_distance_squared is an admissible lower bound and min_distance_to_face a safe radius; one (two: thorough) iteration(s) of the Epos6 sphere-of-spheres extension contain the previous sphere and the new one from every reachable pre-state. The kNN loop, Welzl recursion and minimality are not encoded.',
+                note=TRUST_M, ref='DESIGN.md 4 C20'),
     'C13': dict(cat='other', tech='symbolic execution of the MIR of the two face-integral loops, the conversion closures and the box normalisation -> SMT',
                 text='Solver-decided for enumerated plane labels x symbolic indices/mask on a 3-plane / 5-tetrahedra harness list: symmetric = non-symmetric minus exactly the unshifted planes towards a constructed lower-index neighbour, plane order, labels, one delivery of each tetrahedron to its own plane; face rule with mask None = all-true mask; identical 1D/2D box normalisation on both routes. Integrator side only; bitwise agreement with the r-tree route and of float sums is outside.',
                 note=TRUST_M + '; std Option/Vec/iterator semantics modelled positionally', ref='DESIGN.md 4 C13'),
